@@ -1,0 +1,38 @@
+//! Verification hooks, compiled only with the cargo feature `verif` (off by default).
+//!
+//! A clock override for the two wall-clock readers of the wire codecs
+//! (`codec::shadowsocks::aead_2022::now` and `protocol::vmess::now`), so that a
+//! harness can place "now" exactly on either side of the freshness boundaries.
+//! The thread-local value wins over the process-wide one; unset means "real clock".
+
+use std::cell::Cell;
+use std::sync::atomic::AtomicI64;
+use std::sync::atomic::Ordering;
+
+const UNSET: i64 = i64::MIN;
+
+static GLOBAL_CLOCK: AtomicI64 = AtomicI64::new(UNSET);
+
+thread_local! {
+    static THREAD_CLOCK: Cell<i64> = const { Cell::new(UNSET) };
+}
+
+/// Pin (or with `None` release) the clock seen by every thread that has no thread-local override.
+pub fn set_global_clock(unix_secs: Option<i64>) {
+    GLOBAL_CLOCK.store(unix_secs.unwrap_or(UNSET), Ordering::SeqCst);
+}
+
+/// Pin (or with `None` release) the clock seen by the calling thread.
+pub fn set_thread_clock(unix_secs: Option<i64>) {
+    THREAD_CLOCK.with(|c| c.set(unix_secs.unwrap_or(UNSET)));
+}
+
+/// The overriding clock value, if any.
+pub fn clock() -> Option<i64> {
+    let t = THREAD_CLOCK.with(|c| c.get());
+    if t != UNSET {
+        return Some(t);
+    }
+    let g = GLOBAL_CLOCK.load(Ordering::SeqCst);
+    if g != UNSET { Some(g) } else { None }
+}
